@@ -298,20 +298,32 @@ def ctor_typestate_rule(run):
     parks a handler that no run() will ever complete, and cancel() asks the simulation to remove a timer it never held."""
     fx = run.fx
     n = 0
+    rec = fx.record(T)[0]
+    fld = [f_ for f_ in rec['fields'] if f_['name'] == 'm_expired']
+    dflt = fld[0].get('init_v') if fld and fld[0].get('init') else None      # default member initialiser, if any
     for fn in fx.fn(T + '::high_resolution_timer'):
+        if '&&' in fn.sig or 'const sim::asio::high_resolution_timer &' in fn.sig:
+            continue            # move/copy construction: C12's move rules
+        val = None
         for it in fn.inits:
             if it.get('field') != 'm_expired' or not it.get('written'):
                 continue
             v = q.strip_casts(it.get('e'))
-            if not (is_node(v) and isinstance(v.get('v'), bool)):
-                continue        # copied from another timer (move construction): C12's move rules
-            n += 1
-            run.touch(fn)
-            adds = [c for c in _calls(fn, 'io_context::add_timer') if c.get('args') and q.is_this(c['args'][0])]
-            ok = v['v'] is True or (bool(adds) and q.on_all_paths(fn, adds))
-            run.check(ok, 'R4', 'ctor-unexpired-implies-queued', fn.norm + fn.sig, fn.loc(),
-                      'the constructor marks the timer pending (m_expired(false)) without queuing it (no add_timer(this) on every path): async_wait() on the fresh timer parks a handler that never completes, and cancel()/the destructor ask the simulation to erase a timer it does not hold',
-                      'constructed expired (not queued)' if v['v'] else 'constructed pending and queued on every path')
+            if is_node(v) and isinstance(v.get('v'), bool):
+                val = v['v']
+            elif is_node(v) and v.get('k') == 'defaultinit' and dflt is not None:
+                val = bool(dflt)
+        if val is None and dflt is not None and not any(it.get('field') == 'm_expired' and it.get('written') and is_node(it.get('e')) and q.strip_casts(it['e']).get('k') not in ('defaultinit', None) for it in fn.inits):
+            val = bool(dflt)
+        if val is None:
+            continue
+        n += 1
+        run.touch(fn)
+        adds = [c for c in _calls(fn, 'io_context::add_timer') if c.get('args') and q.is_this(c['args'][0])]
+        ok = val is True or (bool(adds) and q.on_all_paths(fn, adds))
+        run.check(ok, 'R4', 'ctor-unexpired-implies-queued', fn.norm + fn.sig, fn.loc(),
+                  'the constructor marks the timer pending (m_expired false) without queuing it (no add_timer(this) on every path): async_wait() on the fresh timer parks a handler that never completes, and cancel()/the destructor ask the simulation to erase a timer it does not hold',
+                  'constructed expired (not queued)' if val else 'constructed pending and queued on every path')
     if n < 3:
         run.broke('only %d constructors of high_resolution_timer initialise m_expired with a literal (3 confirmed by hand)' % n)
 
